@@ -546,6 +546,35 @@ pub fn run<G: Glue>(
     Ok(resp)
 }
 
+/// The read-only part of a script, for query handlers that take one: ask the peers named by
+/// its `Query` steps through the typed querier helpers (nested queries), fail where it says so.
+/// Returns the answers, in order.
+pub fn run_queries<G: Glue>(deps: sylvia::cw_std::Deps<G::Q>, script: &Script) -> Result<Value, G::E> {
+    let mut answers = vec![];
+    for step in &script.0 {
+        match step {
+            Step::Fail { code } => return Err(G::fail(*code)),
+            Step::Query { peer: p, ty, method, args, form } => {
+                let f = peer(ty)?;
+                let addr = Addr::unchecked(p.clone());
+                let out = G::query_peer(f, &deps.querier, &addr, *form, method, args.as_slice());
+                bb::build(
+                    G::CID,
+                    "querier",
+                    json!({"peer": p, "ty": ty, "method": method, "args": bb::bytes_text(args.as_slice()), "form": form}),
+                    match &out {
+                        Ok(b) => json!({"ok": bb::bytes_text(b.as_slice())}),
+                        Err(e) => json!({"err": e.to_string()}),
+                    },
+                );
+                answers.push(bb::bytes_text(out?.as_slice()));
+            }
+            _ => {}
+        }
+    }
+    Ok(Value::Array(answers))
+}
+
 /// raw reply payloads carry `{"nonce":..,"script":[..]}`; anything else means "no script"
 pub fn script_from_raw_payload(payload: &[u8]) -> Script {
     #[derive(Deserialize)]
